@@ -168,6 +168,19 @@ pub fn run_c14(cx: &Ctx) -> i32 {
             let limit_max = engine::compile_with(&pattern, |b| {
                 b.backtrack_limit(usize::MAX);
             });
+            // the case-insensitive option together with each other option (limits that cannot be
+            // reached), alone and all at once, set before and after it: still exactly (?i)P
+            let combos: Vec<(&str, Result<fancy_regex::Regex, engine::CompileFail>)> = vec![
+                ("case_insensitive(true).delegate_size_limit(50 MiB)", engine::compile_with(&pattern, |b| { b.case_insensitive(true).delegate_size_limit(50 << 20); })),
+                ("delegate_dfa_size_limit(50 MiB).case_insensitive(true)", engine::compile_with(&pattern, |b| { b.delegate_dfa_size_limit(50 << 20).case_insensitive(true); })),
+                ("case_insensitive(true).backtrack_limit(10^7)", engine::compile_with(&pattern, |b| { b.case_insensitive(true).backtrack_limit(10_000_000); })),
+                ("delegate_size_limit(50 MiB).case_insensitive(true).delegate_dfa_size_limit(50 MiB).backtrack_limit(10^7)", engine::compile_with(&pattern, |b| { b.delegate_size_limit(50 << 20).case_insensitive(true).delegate_dfa_size_limit(50 << 20).backtrack_limit(10_000_000); })),
+            ];
+            for (cname, c) in &combos {
+                if let Err(e) = c {
+                    viol(&mut t, "", 0, format!("builds with case_insensitive(true) but not with {}: {:?}", cname, e));
+                }
+            }
             for text in &texts {
                 // the other entry points (each has its own code path for the two engines, and some
                 // have shortcuts that look at the pattern text): option == inline flag, and a limit
@@ -214,6 +227,14 @@ pub fn run_c14(cx: &Ctx) -> i32 {
                     }
                     if e != g {
                         viol(&mut t, text, pos, format!("case_insensitive(true) gives {} but the pattern (?i){} gives {}", g.short(), pattern, e.short()));
+                    }
+                    for (cname, c) in &combos {
+                        if let Ok(c) = c {
+                            let gc = engine::captures_at(c, text, pos);
+                            if gc != e && !matches!(gc, Out::Panic(_) | Out::Err(_)) {
+                                viol(&mut t, text, pos, format!("{} gives {} but the pattern (?i){} gives {}", cname, gc.short(), pattern, e.short()));
+                            }
+                        }
                     }
                     let base = engine::captures_at(&unset, text, pos);
                     let f = engine::captures_at(&opt_false, text, pos);
@@ -266,7 +287,7 @@ pub fn run_c14(cx: &Ctx) -> i32 {
         t,
         Finish {
             rule: format!(
-                "every pattern of {} (mixed-case atoms, inner (?-i:..) and (?i:..) groups, fancy and plain) x every text over {:?} up to length {} x every offset: build(P).case_insensitive(true) == build((?i)P) on all groups, case_insensitive(false) == no option, ample delegate_size_limit / delegate_dfa_size_limit / backtrack_limit == no option, backtrack_limit(usize::MAX) == no option, and the same two equalities for is_match, find_iter, split, replace_all(\"-\") and replacen(1, \"[$0]\") on every text; backtrack_limit(1) yields BacktrackLimitExceeded exactly when the search needs more than one backtrack (count read through hook H1) and the unlimited result otherwise; plus: for each large plain piece of {:?} that fails to build under delegate_size_limit(10 / 1000), every fancy host of {:?} embedding it as a delegated piece must fail to build too (CompileError::InnerError); metamorphic, no reference model; non-trivial = cases on which case-insensitivity changes the result; plus a {}",
+                "every pattern of {} (mixed-case atoms, inner (?-i:..) and (?i:..) groups, fancy and plain) x every text over {:?} up to length {} x every offset: the option combined with each other option (ample delegate_size_limit, delegate_dfa_size_limit, backtrack_limit; alone and all at once, set before and after it) is still exactly (?i)P; build(P).case_insensitive(true) == build((?i)P) on all groups, case_insensitive(false) == no option, ample delegate_size_limit / delegate_dfa_size_limit / backtrack_limit == no option, backtrack_limit(usize::MAX) == no option, and the same two equalities for is_match, find_iter, split, replace_all(\"-\") and replacen(1, \"[$0]\") on every text; backtrack_limit(1) yields BacktrackLimitExceeded exactly when the search needs more than one backtrack (count read through hook H1) and the unlimited result otherwise; plus: for each large plain piece of {:?} that fails to build under delegate_size_limit(10 / 1000), every fancy host of {:?} embedding it as a delegated piece must fail to build too (CompileError::InnerError); metamorphic, no reference model; non-trivial = cases on which case-insensitivity changes the result; plus a {}",
                 space.describe(), alphabet, max_len, LARGE, HOSTS, casefold::describe(casefold::Which::C14)
             ),
             exhaustive: true,
